@@ -36,7 +36,14 @@
   * TrendStrengthIndex: `p/sqrt q` with `p = (WMA − mean)·Σi`, `q = k·(Σx² − mean·Σx)` over the last `period` sources
     (`C05_trend_strength_step`); FisherTransform: `prev/2 + atanhQ(clamped position of the source in the window's range)`
     and the realised average of that (`C05_fisher_step`; `atanhQ` is the model's rational stand-in for atanh).
-  Partial: Envelopes, TSI/SMI and the tier-2 indicators' value theorems over whole histories are not written (those
+  * AwesomeOscillator `f₂(sources) − f₁(sources)`; DetrendedPriceOscillator `source n steps ago − f(sources)`;
+    EaseOfMovement the realised average of `mid-point move · range / volume` (0 on zero volume) against the candle `period2`
+    back; EldersForceIndex the realised average of `source change · window volume` (`C05_ao_step`, `C05_dpo_step`,
+    `C05_eom_step`, `C05_efi_step`).
+  * Envelopes `f(sources)·(1 ± k)` and the second source; KlingerVolumeOscillator `f₁ − f₂` of the signed volumes and the
+    realised signal line; TrueStrengthIndex / SMIErgodic: the TSI quotient of the doubly smoothed changes (C03) and the
+    realised smoothing of it (`C05_envelopes_step`, `C05_klinger_step`, `C05_tsi_step`).
+  Partial: the remaining tier-2 indicators' value theorems over whole histories are not written (those
   models are validated by the correspondence run only); floats are outside.
 -/
 import YataProofs.Indicators.More
@@ -47,6 +54,8 @@ import YataProofs.Indicators.Keltner
 import YataProofs.Indicators.CMFRange
 import YataProofs.Indicators.MFIRange
 import YataProofs.Indicators.Irrational
+import YataProofs.Indicators.Tier2
+import YataProofs.Indicators.Tier2b
 namespace Yata.C05
 open Yata Yata.Ind
 
@@ -213,6 +222,55 @@ theorem C05_fisher_step {P : Nat} {g : List ℚ → ℚ} {srcs cums : List ℚ} 
 theorem C05_fisher_clamped (b src hi lo : ℚ) (hb : 0 ≤ b) : -b ≤ Fisher.xOf b src hi lo ∧ Fisher.xOf b src hi lo ≤ b :=
   Fisher.xOf_range b src hi lo hb
 
+theorem C05_ao_step {f1 f2 : List ℚ → ℚ} {srcs : List ℚ} {s : AO} (k : Candle ℚ) (h : AO.Inv f1 f2 srcs s) :
+    let x := k.source s.cfg.source
+    ∃ v s', s.vals k = .ok (v, s') ∧ v.map VExp.value = [f2 (srcs ++ [x]) - f1 (srcs ++ [x])] ∧
+      AO.Inv f1 f2 (srcs ++ [x]) s' ∧ s'.cfg = s.cfg := AO.vals_spec k h
+
+theorem C05_dpo_step {P n : Nat} {f : List ℚ → ℚ} {srcs : List ℚ} {s : DPO} (k : Candle ℚ) (h : DPO.Inv P n f srcs s) :
+    let x := k.source s.source
+    ∃ left v s', (lastN n srcs).head? = some left ∧ s.vals k = .ok (v, s') ∧
+      v.map VExp.value = [left - f (srcs ++ [x])] ∧ DPO.Inv P n f (srcs ++ [x]) s' := DPO.vals_spec k h
+
+theorem C05_eom_step {P n : Nat} {f : List ℚ → ℚ} {cs : List (Candle ℚ)} {raws : List ℚ} {s : EoM} (k : Candle ℚ)
+    (h : EoM.Inv P n f cs raws s) :
+    ∃ prev v s', (lastN n cs).head? = some prev ∧ s.vals k = .ok (v, s') ∧
+      v.map VExp.value = [f (raws ++ [EoM.raw k prev])] ∧ EoM.Inv P n f (cs ++ [k]) (raws ++ [EoM.raw k prev]) s' :=
+  EoM.vals_spec k h
+
+theorem C05_efi_step {P n : Nat} {f : List ℚ → ℚ} {cs : List (Candle ℚ)} {raws : List ℚ} {s : EFI} (k : Candle ℚ)
+    (h : EFI.Inv P n f cs raws s) :
+    let vs := ((lastN n (cs ++ [k])).map fun c => c.volume).sum
+    ∃ left v s', (lastN n cs).head? = some left ∧ s.vals k = .ok (v, s') ∧
+      (let r := (k.source s.source - left.source s.source) * vs
+       v.map VExp.value = [f (raws ++ [r])] ∧ EFI.Inv P n f (cs ++ [k]) (raws ++ [r]) s') := EFI.vals_spec k h
+
+theorem C05_envelopes_step {f : List ℚ → ℚ} {srcs : List ℚ} {s : Env} (k : Candle ℚ) (h : Realises f s.ma srcs) :
+    let x := k.source s.cfg.source
+    ∃ v s', s.vals k = .ok (v, s') ∧
+      v.map VExp.value = [f (srcs ++ [x]) * s.k_high, f (srcs ++ [x]) * s.k_low, k.source s.cfg.source2] ∧
+      Realises f s'.ma (srcs ++ [x]) ∧ s'.cfg = s.cfg ∧ s'.k_high = s.k_high ∧ s'.k_low = s.k_low := Env.vals_spec k h
+
+theorem C05_klinger_step {f1 f2 f3 : List ℚ → ℚ} {vols kos : List ℚ} {s : Klinger} (k : Candle ℚ) (tp : ℚ)
+    (h : Klinger.Inv f1 f2 f3 vols kos s) :
+    let vol := (signi (tp - s.last_tp) : ℚ) * k.volume
+    let ko := f1 (vols ++ [vol]) - f2 (vols ++ [vol])
+    ∃ v s', s.vals k tp none = .ok (v, s') ∧ v.map VExp.value = [ko, f3 (kos ++ [ko])] ∧
+      Klinger.Inv f1 f2 f3 (vols ++ [vol]) (kos ++ [ko]) s' ∧ s'.last_tp = tp := Klinger.vals_spec k tp h
+
+theorem C05_tsi_step {aL aS v0 : ℚ} {g : List ℚ → ℚ} {srcs ts : List ℚ} {s : TSIx} (k : Candle ℚ) (smi : Bool)
+    (h : TSIx.Inv aL aS v0 g srcs ts s) :
+    let x := k.source s.cfg.source
+    let ch := Spec.changes v0 (srcs ++ [x])
+    let num := Spec.emaRec aS 0 (Spec.series (Spec.emaRec aL 0) ch)
+    let den := Spec.emaRec aS 0 (Spec.series (Spec.emaRec aL 0) (ch.map sabs))
+    let t := if 0 < den then num / den else 0
+    ∃ s', s.vals k none smi = .ok
+        ((if smi then [.quot num den 2 2 .price [] (some 0), .unit (g (ts ++ [t])) (2 * maK s.smooth),
+                       .unit (t - g (ts ++ [t])) (4 * maK s.smooth)]
+          else [.quot num den 2 2 .price [] (some 0), .unit (g (ts ++ [t])) (2 * maK s.smooth)]), s') ∧
+      TSIx.Inv aL aS v0 g (srcs ++ [x]) (ts ++ [t]) s' ∧ s'.cfg = s.cfg := TSIx.vals_spec k smi h
+
 /-! non-vacuity: a reachable MACD state satisfies the invariant (both default averages are EMAs) -/
 example : ∃ m, MA.init 255 { kind := .ema, length := 12 } (100 : ℚ) = .ok m ∧
     Realises (fun h => Spec.emaRec (((2 : Nat) : ℚ) / ((12 + 1 : Nat) : ℚ)) 100 h) m [] :=
@@ -242,3 +300,10 @@ end Yata.C05
 #print axioms Yata.C05.C05_trend_strength_step
 #print axioms Yata.C05.C05_fisher_step
 #print axioms Yata.C05.C05_fisher_clamped
+#print axioms Yata.C05.C05_ao_step
+#print axioms Yata.C05.C05_dpo_step
+#print axioms Yata.C05.C05_eom_step
+#print axioms Yata.C05.C05_efi_step
+#print axioms Yata.C05.C05_envelopes_step
+#print axioms Yata.C05.C05_klinger_step
+#print axioms Yata.C05.C05_tsi_step
